@@ -228,6 +228,15 @@ def _merge(case, rec):
     # normals up to 1e-5 apart. A vertex up to ~1e-5 diameters off a neighbouring facet plane (data tabulated with six
     # digits) may therefore legitimately be merged or not: the band in which the case is not judged follows that
     amb = coplanarity_ambiguous(V, facets, nrm, off, hi=1e-4)
+    if case.get("far"):
+        # ... and its tolerance on the plane offset is 1e-8 + 1e-5*|d|. Far from the origin two triangles of one facet
+        # get offsets differing by about eps*L^2/edge; for a facet whose plane passes near the origin (small |d|) that
+        # noise can exceed the documented tolerance, and leaving the facet split is then what the documentation says
+        Lf = maxnorm(V)
+        emin = min(float(np.linalg.norm(V[a] - V[b])) for fc in facets for a, b in zip(fc, fc[1:] + fc[:1]))
+        if any(64 * 2.0**-52 * Lf * Lf / emin > 1e-8 + 1e-5 * abs(float(d_)) for d_ in off):
+            amb = True
+            rec.label("offset_noise_above_documented_tolerance")
     u = list(case["fperm"])
     T = []
     pos = 0
